@@ -544,6 +544,50 @@ impl<C: ContentAddrStore> SealedState<C> {
     }
 }
 
+/// Read-only view of an unsealed state for the verification harness (`--cfg melstf_verif` only).
+#[cfg(melstf_verif)]
+pub struct VerifParts<C: ContentAddrStore> {
+    pub network: NetID,
+    pub height: BlockHeight,
+    pub history: novasmt::Tree<C>,
+    pub coins: novasmt::Tree<C>,
+    pub transactions: Vec<Transaction>,
+    pub fee_pool: CoinValue,
+    pub fee_multiplier: u128,
+    pub tips: CoinValue,
+    pub dosc_speed: u128,
+    pub pools: novasmt::Tree<C>,
+    pub stakes: StakeSet,
+}
+
+#[cfg(melstf_verif)]
+impl<C: ContentAddrStore> UnsealedState<C> {
+    /// Copies out every field of the state.
+    pub fn verif_parts(&self) -> VerifParts<C> {
+        VerifParts {
+            network: self.network,
+            height: self.height,
+            history: self.history.mapping.clone(),
+            coins: self.coins.inner().clone(),
+            transactions: self.transactions.iter().cloned().collect(),
+            fee_pool: self.fee_pool,
+            fee_multiplier: self.fee_multiplier,
+            tips: self.tips,
+            dosc_speed: self.dosc_speed,
+            pools: self.pools.mapping.clone(),
+            stakes: self.stakes.clone(),
+        }
+    }
+}
+
+#[cfg(melstf_verif)]
+impl<C: ContentAddrStore> SealedState<C> {
+    /// The state inside a sealed state.
+    pub fn verif_inner(&self) -> &UnsealedState<C> {
+        &self.0
+    }
+}
+
 /// ConfirmedState represents a fully confirmed state with a consensus proof.
 #[derive(Derivative, Debug)]
 #[derivative(Clone(bound = ""))]
